@@ -296,6 +296,7 @@ func (cluH) Generate(property string, seed uint64, tier string) *Case {
 				op = genCreate(g, &cfg, property)
 				op.Kind = "lambda"
 				op.Stdin = g.IntN(4) == 0
+				op.Force = g.IntN(2) == 0 // (with stdin) the client leaves its input open
 			}
 			if property == "C12" && g.IntN(2) == 0 {
 				op = genCreate(g, &cfg, property)
